@@ -144,6 +144,18 @@ def initial_texture(tex, n, seed):
         return o, np.full(n, 1.0 / n)
     if tex == "aligned":
         return np.repeat(np.eye(3)[None], n, axis=0), np.full(n, 1.0 / n)
+    if tex == "intaligned":
+        # cube-group orientations written with integer literals (an integer-typed array), distinct per grain
+        octa = np.round(Rotation.create_group("O").as_matrix()).astype(np.int64)
+        return octa[rng.permutation(24)[np.arange(n) % 24]], np.full(n, 1.0 / n)
+    if tex == "layout":
+        # the client's arrays in an unusual memory representation: orientations as a transposed view of the
+        # transposes (same values, not C-contiguous), volumes as a strided view into a larger array
+        base = Rotation.random(n, random_state=seed + 17).as_matrix()
+        o = np.ascontiguousarray(base.transpose(0, 2, 1)).transpose(0, 2, 1)
+        big = np.zeros(2 * n)
+        big[::2] = 1.0 / n
+        return o, big[::2]
     raise KeyError(tex)
 
 
